@@ -161,10 +161,10 @@ class SharedMemoryFileBufferedCollection(FileBufferedCollection):
             # that implies a nesting of buffered contexts in which another
             # collection pointing to the same data flushed the buffer. This
             # object's data will still be pointing to that one, though, so the
-            # safest choice is to reinitialize its data from scratch.
-            data = self._to_base()
-            self._data = type(self._data)()
-            self._update(data, _validate=True)
+            # safest choice is to give it a container of its own. The nested
+            # collections are kept (not rebuilt) so that references to them
+            # retrieved earlier remain part of this collection.
+            self._data = type(self._data)(self._data)
 
     def _load(self):
         """Load data from the backend but buffer if needed.
